@@ -2,7 +2,7 @@
 import json
 import random
 
-from .. import flow, corr_loop, oracles_sde as osde
+from .. import core, flow, corr_loop, oracles_sde as osde
 
 PROOFS = ['Tsv.Proofs.LoopCore', 'Tsv.Proofs.C12']
 TRUSTED = ["Lean 4.33 kernel + Mathlib", "hand-written loop model Model/Loop.lean, tied to the real BaseSDESolver.integrate by "
@@ -19,7 +19,7 @@ def run(rep, tier, seed):
     rep.ob('correspondence:integrate-fixed', f"{c.get('cases', 0)} runs / {c.get('steps', 0)} steps", c['ok'],
            json.dumps(c.get('mismatches') or c.get('error', ''), default=str)[:1500])
     rep.cov['correspondence'] = {k: v for k, v in c.items() if k != 'mismatches'}
-    fails, st = osde.c12_search(rng, 25 if tier == 'quick' else 600)
+    fails, st = core.safe(osde.c12_search, rng, 25 if tier == 'quick' else 600)
     rep.ob('oracle:grid/invariance-on-real-sdeint', f"{st['evals']} problems", not fails, json.dumps(fails[:1], default=str)[:1200])
     rep.cov['real_code_oracle'] = st
     rep.cov.update(evaluations=c.get('cases', 0) + st['evals'], distinct_nontrivial=st['invariance_checks'],
